@@ -65,6 +65,7 @@ type link = {
   place : placement;
 }
 type leaf = LPlain | LExtends | LInnerMissing | LInnerMissingIgnored | LExtendsMissing | LImportMissing | LSentinel
+          | LSetInSpaceless | LSetInApply | LSetInBlock   (* ... in the body of a spaceless, an apply, a block *)
           | LSetInThen | LSetInElse   (* nothing but output at the top level; the assignments and the loop stand in a branch of an if *)
 
 let placement_str = function Top -> "top" | Loop -> "loop" | Block -> "block" | Macro -> "macro"
@@ -73,6 +74,7 @@ let leaf_str = function
   | LPlain -> "plain" | LExtends -> "extends" | LInnerMissing -> "inner-missing" | LInnerMissingIgnored -> "inner-missing-ignored"
   | LExtendsMissing -> "extends-missing" | LImportMissing -> "import-missing" | LSentinel -> "sentinel"
   | LSetInThen -> "set-in-then-branch" | LSetInElse -> "set-in-else-branch"
+  | LSetInSpaceless -> "set-in-spaceless" | LSetInApply -> "set-in-apply" | LSetInBlock -> "set-in-block"
 let combo_str (l : link) =
   Printf.sprintf "w%di%do%ds%d" (if l.withs = None then 0 else 1) (if l.ign then 1 else 0) (if l.only then 1 else 0) (if l.sb then 1 else 0)
 
@@ -163,6 +165,17 @@ let build (links : link list) (leaf : leaf) (ctxvars : (string * string) list) ~
          let cond = M.EBin (M.BEq, lit_int 1, lit_int (if leaf = LSetInThen then 1 else 2)) in
          tpls := (name, view_region k
                         @ [ (if leaf = LSetInThen then M.NIf ([ (cond, work) ], Some [ text "else" ]) else M.NIf ([ (cond, [ text "then" ]) ], Some work)); text "|end" ]) :: !tpls
+       | LSetInSpaceless | LSetInApply | LSetInBlock ->
+         add_view_check k vis;
+         let work = [ set "a" (lit_str (marker "S" k "a")); set (Printf.sprintf "s%d" (min k 4)) (lit_str (marker "S" k "s")); set "b" (lit_str (marker "S" k "b")) ]
+                    @ trailing_loop k in
+         (* under a sandboxed link the policy of these cases allows neither spaceless nor lower: a block then *)
+         let any_sb = List.exists (fun (l : link) -> l.sb) links in
+         let wrapped = match leaf with
+           | LSetInSpaceless when not any_sb -> M.NSpaceless work
+           | LSetInApply when not any_sb -> M.NApply (bs "lower", [], work)
+           | _ -> M.NBlock (bs "blkW", work) in
+         tpls := (name, view_region k @ [ wrapped; text "|end" ]) :: !tpls
        | LExtends ->
          add_view_check k vis;
          (* the base layout reads the same variables *)
@@ -394,7 +407,7 @@ let catalogue oc =
       let l = { missing = false; form = Static; withs = (if w then Some [ WFresh ] else None); ign = i; only = o; sb = s; place = Top } in
       emit_chain oc ~stream:"c11-inner" [ l ] leaf std_ctx ~has_policy:true;
       emit_chain oc ~stream:"c11-inner" [ { plain_link with ign = true }; l ] leaf std_ctx ~has_policy:true)
-      [ LInnerMissing; LInnerMissingIgnored; LExtendsMissing; LImportMissing; LSentinel; LExtends; LSetInThen; LSetInElse ]) all_combos;
+      [ LInnerMissing; LInnerMissingIgnored; LExtendsMissing; LImportMissing; LSentinel; LExtends; LSetInThen; LSetInElse; LSetInSpaceless; LSetInApply; LSetInBlock ]) all_combos;
   (* name forms and with kinds *)
   List.iter (fun form ->
     List.iter (fun (o, s) ->
@@ -426,7 +439,7 @@ let random_chains r oc n =
   for _ = 1 to n do
     let depth = 1 + rint r 4 in
     let links = List.init depth (fun j -> gen_link r ~last:(j = depth - 1)) in
-    let leaf = pick r [| LPlain; LPlain; LPlain; LExtends; LExtends; LInnerMissing; LInnerMissingIgnored; LExtendsMissing; LImportMissing; LSentinel; LSetInThen; LSetInElse |] in
+    let leaf = pick r [| LPlain; LPlain; LPlain; LExtends; LExtends; LInnerMissing; LInnerMissingIgnored; LExtendsMissing; LImportMissing; LSentinel; LSetInThen; LSetInElse; LSetInSpaceless; LSetInApply; LSetInBlock |] in
     let ctxvars = List.filter (fun _ -> rint r 4 <> 0) (std_ctx @ [ ("v", marker "C" 0 "v"); ("w", marker "C" 0 "w"); ("i", marker "C" 0 "i"); ("p", marker "C" 0 "p"); ("s1", marker "C" 0 "s") ]) in
     emit_chain oc ~stream:"c11-chains" links leaf ctxvars ~has_policy:(rint r 12 <> 0)
   done
